@@ -392,14 +392,15 @@ def run_case(case, rec, mon=None):
         rng = rng_for(case["seed"], "C20", case["idx"])
         ps = np.exp(rng.uniform(np.log(1e-20), np.log(0.5), case["n"]))
         ps = np.concatenate([ps, [0.5, 1e-20, 0.25, 1e-10, 0.1, 0.4999999, 0.01]])
-        probes = sorted(set([float(p) for p in ps] + [float(1 - p) for p in ps if p >= 1e-15]))
+        # (below 1e-20 no accuracy is promised, but the function is still increasing - not necessarily strictly - and affine)
+        probes = sorted(set([float(p) for p in ps] + [float(1 - p) for p in ps if p >= 1e-15] + [1e-300, 1e-100, 1e-40, 1e-25, 9.9e-21, float(np.nextafter(1e-20, 0))]))
         prev = None
         for p in probes:
             z = float(U.gauss_quant(p))
             if prev is not None:
                 p0, z0 = prev
                 rec.count("gauss_monotone_pairs")
-                if (p - p0 > 1e-9 * p0 and not z > z0) or z < z0:
+                if (p - p0 > 1e-9 * p0 and p0 >= 1e-20 and not z > z0) or z < z0:
                     mon.v("gauss_quant not increasing: q(%r)=%r, q(%r)=%r" % (p0, z0, p, z), check="gauss_monotone", p=p)
             prev = (p, z)
             if rng.random() < 0.25:
